@@ -44,6 +44,16 @@ def run(prog, rep, tier):
     r16_4(prog, rep)
     r16_5(prog, rep)
     r16_6(prog, rep)
+    # the aliases are synonyms only as long as the built-in names are resolved before anything the caller defines
+    # (a user variable called p, T or B must not capture them): C11's R11.2, reported here as R16.2
+    from . import C11
+    sub = type(rep)(rep.prop)
+    C11.r11_2(prog, sub)
+    for it in sub.items:
+        it = dict(it)
+        it["rule"] = "R16.2"
+        rep.items.append(it)
+        rep.counts["R16.2"] = rep.counts.get("R16.2", 0) + 1
     rep.floor("R16.1", 10)
     rep.floor("R16.3", 6)
     rep.floor("R16.4", 5)
